@@ -83,6 +83,19 @@ for _an in ARR1D:
             CONV.setdefault(_src, []).append(_an)
 CONV = {k: sorted(set(v)) for k, v in CONV.items()}
 
+METHODS0 = {}   # array type -> zero-argument methods returning the array type or None (mutators such as normalize(), invert() among them)
+for _an in ARR1D:
+    _cls = getattr(imath, _an)
+    _names = []
+    for _mn in sorted(_cls.__dict__):
+        if _mn.startswith("__") or _mn in ("makeReadOnly", "writable"):
+            continue
+        _doc = getattr(getattr(_cls, _mn), "__doc__", None)
+        if isinstance(_doc, str) and _re.search(r"^%s\( \(%s\)\w+\) -> (%s|None) :" % (_mn, _an, _an), _doc, _re.M):
+            _names.append(_mn)
+    if _names:
+        METHODS0[_an] = _names
+
 INT_WRAP = {"i8": (8, True), "u8": (8, False), "i16": (16, True), "u16": (16, False), "i32": (32, True), "u32": (32, False),
             "i64": (64, True), "b": (1, False)}
 
@@ -281,7 +294,7 @@ def gen_op_fields(r, o, op, mode, maxn, types):
         op["n"] = r.range(1, maxn)
         op["how"] = r.choice(["wrongtype", "extradim", "flat", "inner", "strided", "bytes", "wrongsize", "offset", "empty2d", "imath_other", "bigendian", "bigendian"])
     elif o == "ro_attack":
-        op["how"] = r.choice(["iop_any", "set_s", "set_a", "setm_s", "setm_a", "elem", "comp_set", "mv"])
+        op["how"] = r.choice(["iop_any", "set_s", "set_a", "setm_s", "setm_a", "elem", "comp_set", "mv", "method0"])
         op["m"] = [r.below(2) for _ in range(maxn)]
         op["k"] = r.below(16)
     return op
@@ -542,10 +555,9 @@ class Sim(FAM.FamilyMixin):
                 if tt.isfloat:
                     y = wrap(tt.base, float(x))
                 else:
-                    if isinstance(x, float) and x != int(x) and x < 0:
-                        y = int(x)                 # C++ conversion truncates toward zero
-                    else:
-                        y = int(x)
+                    if isinstance(x, float) and (x != x or x in (float("inf"), float("-inf"))):
+                        return False               # not convertible to an integer: undefined, not exercised
+                    y = int(x)                     # C++ conversion truncates toward zero, like int()
                     lo, hi = PT.INT_RANGE[tt.base]
                     if not (lo <= y <= hi):
                         return False               # out-of-range conversion: implementation-defined, not exercised
@@ -1213,6 +1225,15 @@ class Sim(FAM.FamilyMixin):
                 if got[0] == "exc" and got[1] in ("ArgumentError", "TypeError"):
                     got = self.call(getattr(h.real, name), 2)
             self.expect(got, True, "read-only a.%s(...)" % name)
+        elif how == "method0":
+            # every zero-argument method returning the array (or None): mutators (normalize, invert, ...) must refuse a
+            # read-only array, the others must leave it alone - either way the invariant check finds the data unchanged
+            names = METHODS0.get(h.tname)
+            if not names:
+                return False
+            name = names[op["k"] % len(names)]
+            self.ctx("readonly-attack-method-" + name, h)
+            self.call(getattr(h.real, name))
         elif how == "set_s":
             got = self.call(h.real.__setitem__, slice(None), val)
             self.expect(got, True, "read-only a[:] = scalar")
